@@ -229,9 +229,9 @@ def t_sleep_action(it, is_async):
 
 
 TASKS = [
-    Task("retry_helpers._sync_sleep_action", lambda it: t_sleep_action(it, False), ["C01", "C02", "C03", "C04", "C05", "C10", "C11", "C12", "C13", "C14", "C15", "C16"],
+    Task("retry_helpers._sync_sleep_action", lambda it: t_sleep_action(it, False), ["C01", "C02", "C03", "C04", "C05", "C09", "C10", "C11", "C12", "C13", "C14", "C15", "C16"],
          [K_SYNC, "redress.policy.retry_helpers:_handle_sleep_decision", "redress.policy.retry_helpers:_call_before_sleep"]),
-    Task("retry_helpers._async_sleep_action", lambda it: t_sleep_action(it, True), ["C01", "C02", "C03", "C04", "C05", "C10", "C11", "C12", "C13", "C14", "C15", "C16"],
+    Task("retry_helpers._async_sleep_action", lambda it: t_sleep_action(it, True), ["C01", "C02", "C03", "C04", "C05", "C09", "C10", "C11", "C12", "C13", "C14", "C15", "C16"],
          [K_ASYNC, "redress.policy.retry_helpers:_handle_sleep_decision", "redress.policy.retry_helpers:_call_before_sleep_async",
           "redress.policy.retry_helpers:_call_async_sleeper"]),
 ]
